@@ -8,7 +8,7 @@ for c in P["cases"]:
     if c["op"] == "stencil":
         out.append(guarded(lambda: [hx(v) for v in ti.integration_stencil(c["order"], c["n"])]))
     elif c["op"] == "integrate":
-        t = np.array([unhx(v) for v in c["t"]], dtype=float)
+        t = np.array([unhx(v) for v in c["t"]], dtype=float).astype(c.get("tdtype", "float"))
         x = np.array([unhx(v) for v in c["x"]], dtype=float)
         out.append(guarded(lambda: [hx(v) for v in ti.integrate(t, x, c["order"], c["n"], unhx(c["start"]))]))
 emit({"results": out})
